@@ -1,4 +1,5 @@
 import PgFdr.Proofs.C10
+import PgFdr.Proofs.C10Rescue
 import Mathlib.Algebra.Order.Field.Power
 
 /-!
@@ -266,6 +267,51 @@ theorem purity_no_grouping (T : Transforms) (mode : Mode) (pairs : List (DMap ×
       isDecoy g = true ∨ ∀ p ∈ g, isDecoyId p = false :=
   purity T mode pairs _ hids (noGrouping_conn _)
 
+/-- `purity` for the rescued grouping (property C04, `Model/C04.lean`: `C04.rescueGroups`, the function the
+    composed pipeline model calls for the rescue stage).  "… so every reported group consists only of
+    targets or only of decoys": every group the rescue stage returns — the groups merged along shared
+    peptides of the list filtered by the cutoff, and the remnants of the first-pass groups — is a decoy
+    group or contains no decoy, for EVERY cutoff and EVERY recorded min-cut map.
+    `hold`: the first-pass groups handed to the stage are groups of the subset grouping of the ingested list
+    (what `get_protein_group_results` passes).  No connectivity hypothesis is left: members of a rescued
+    group are connected through shared peptides of the filtered list (`C04.merged_only_connected`; the
+    peptide nodes of that graph are identified by NAME, `"peptide:" ++ ";".join(leaders)`, and the name
+    determines the kind because the markers contain no `;` and occur only as prefixes —
+    `Proofs/C10Rescue.lean`), remnants are sub-lists of first-pass groups (`C04.remnants_exact`). -/
+theorem purity_rescued_grouping {ι : Type} (T : Transforms) (mode : Mode) (pairs : List (DMap × List RawRow))
+    (hids : ∀ e ∈ ingestPairs T mode pairs, ∀ p ∈ e.proteins, MarkerOnlyAsPrefix p)
+    (old : List (List String × ι)) (cutoff : Rat) (cuts : C04.CutMap) (out : C04.RescueOut ι)
+    (hold : ∀ g0 ∈ old.map (·.1), g0 ∈ C03.subsetGrouping (ingestPairs T mode pairs))
+    (hrun : C04.rescueGroups old (ingestPairs T mode pairs) cutoff cuts = .ok out) :
+    ∀ g ∈ out.groups, isDecoy g = true ∨ ∀ p ∈ g, isDecoyId p = false := by
+  have hk := (result_keys_unique T mode pairs).1
+  have hh := ingest_homogeneous T mode pairs hids
+  intro g hg
+  apply group_pure_of_kind
+  refine rescue_groups_kind _ hk hids hh old cutoff cuts out ?_ hrun g hg
+  intro g0 hg0 a ha b hb
+  exact kind_of_chain hh (subsetGrouping_conn _ hk g0 (hold g0 hg0) a ha b hb)
+
+/-- "… so every REPORTED group consists only of targets or only of decoys", end to end on the composed
+    model of `get_protein_group_results` (`Pipeline.run`, the function the driver op `pipeline` executes):
+    for every shipped grouping (no / subset / rescued subset / pseudo-gene), razor or discard, every
+    competition strategy and every recorded shuffle, cut map, score vector and cutoff — whenever the call on
+    an ingested peptide list succeeds, the protein list of every row of the reported table is all-decoy
+    (`is_decoy`) or contains no decoy identifier.  (A row lists a sub-list of a ranked group; ranked groups
+    are groups of the grouping — placeholders are never reported; groups of every grouping are linked by
+    shared peptides.) -/
+theorem purity_reported_groups (T : Transforms) (mode : Mode) (pairs : List (DMap × List RawRow))
+    (hids : ∀ e ∈ ingestPairs T mode pairs, ∀ p ∈ e.proteins, MarkerOnlyAsPrefix p)
+    (cfg : Pipeline.Config) (inp : Pipeline.Input) (r : Pipeline.Result)
+    (hpil : inp.pil = ingestPairs T mode pairs) (hrun : Pipeline.run cfg inp = .ok r) :
+    ∀ row ∈ r.rows, isDecoy row.proteins = true ∨ ∀ p ∈ row.proteins, isDecoyId p = false := by
+  intro row hrow
+  apply group_pure_of_kind
+  refine run_rows_kind cfg inp r ?_ ?_ ?_ hrun row hrow
+  · rw [hpil]; exact (result_keys_unique T mode pairs).1
+  · rw [hpil]; exact hids
+  · rw [hpil]; exact ingest_homogeneous T mode pairs hids
+
 /-- "for every peptide sequence with modifications … stripped" / "duplicate peptides across
     modifications": every spelling of a bare peptide with `( … )` tokens (nested MaxQuant tokens
     included), `[ … ]` tokens and stray `)` strips to that bare peptide, so all spellings share one
@@ -384,5 +430,26 @@ example : Spells "AM(Oxidation (M))K".toList "AMK".toList :=
 example : Spells "[42]AMK".toList "AMK".toList :=
   .bracket "42".toList (by decide)
     (.residue 'A' (by decide) (.residue 'M' (by decide) (.residue 'K' (by decide) .nil)))
+
+/-- hypotheses of `purity_rescued_grouping` on the first example: the rescue stage run on its subset
+    grouping (cutoff 1/100 keeps only `AAK`; nothing to cut) succeeds — `[T1]` is re-created, the decoy group is
+    a remnant — and `hold` holds by construction -/
+example : (C04.rescueGroups ((C03.subsetGrouping (ingestPairs exactT exMode (pairUp false [] [exRows]))).map
+      (fun g => (g, ()))) (ingestPairs exactT exMode (pairUp false [] [exRows])) (1/100) []).toOption.map
+      (fun o => o.groups) = some [["T1"], ["REV__T5", "REV__T4"]] := by decide +kernel
+
+/-- hypotheses of `purity_reported_groups`: three MaxQuant rows whose ingestion is the peptide list of the worked
+    pipeline example of `Proofs/C04Unshared.lean` (`A`, `B`, decoy `REV__A`; picked-group method with rescue pass,
+    run evaluated in `C04.demo_run`); the identifiers carry the markers only as prefixes -/
+private def exRows2 : List RawRow :=
+  [ { pep := "_PEPA_", mod := "", score := some (1/1000), prot := ["A"], decoy := false },
+    { pep := "_PEPB_", mod := "", score := some (1/10), prot := ["B"], decoy := false },
+    { pep := "_PEPR_", mod := "", score := some (1/100), prot := ["REV__A"], decoy := false } ]
+
+example : C04.demoInp.pil = ingestPairs exactT exMode (pairUp false [] [exRows2]) := by decide +kernel
+
+example : ∀ row ∈ C04.demoRes.rows, isDecoy row.proteins = true ∨ ∀ p ∈ row.proteins, isDecoyId p = false :=
+  purity_reported_groups exactT exMode (pairUp false [] [exRows2]) (by decide +kernel) C04.demoCfg C04.demoInp
+    C04.demoRes (by decide +kernel) C04.demo_run
 
 end PgFdr.C10
